@@ -182,25 +182,34 @@ def to_poly(v):
 # formal linear combinations
 # ----------------------------------------------------------------------------------------------
 class Atom(object):
-    """Hash-consed atom: ('sym', name) or ('app', fname, args...) with canonical args."""
-    __slots__ = ("key",)
+    """Hash-consed (interned) atom: ('sym', name) or ('app', fname, args...) with canonical args.
+    Interning makes equality an identity test and hashing O(1), whatever the nesting depth of the arguments."""
+    __slots__ = ("key", "id")
+    _intern = {}
+    _ids = itertools.count()
 
-    def __init__(self, key):
-        self.key = key
+    def __new__(cls, key):
+        a = cls._intern.get(key)
+        if a is None:
+            a = object.__new__(cls)
+            a.key = key
+            a.id = next(cls._ids)
+            cls._intern[key] = a
+        return a
 
     def __hash__(self):
-        return hash(self.key)
+        return self.id
 
     def __eq__(self, o):
-        return isinstance(o, Atom) and self.key == o.key
+        return self is o
 
     def __repr__(self):
         if self.key[0] == "sym":
             return self.key[1]
-        return "%s(%s)" % (self.key[1], ", ".join(repr(a) for a in self.key[2:]))
+        return "%s#%d(...)" % (self.key[1], self.id)      # arguments elided: nesting depth is unbounded
 
     def __lt__(self, o):
-        return repr(self.key) < repr(o.key)
+        return self.id < o.id
 
 
 class LinComb(object):
@@ -231,16 +240,15 @@ class LinComb(object):
 
     def key(self):
         if self._key is None:
-            self._key = ("LC",) + tuple(sorted(((repr(a.key), a, c.key()) for a, c in self.terms.items()),
-                                               key=lambda x: x[0]))
+            self._key = frozenset((a.id, c.key()) for a, c in self.terms.items())
         return self._key
 
     def __hash__(self):
-        return hash(tuple((k[0], k[2]) for k in self.key()[1:]))
+        return hash(self.key())
 
     def __eq__(self, o):
         if not isinstance(o, LinComb):
-            if o == 0 and not isinstance(o, bool):
+            if isinstance(o, (int, Fraction)) and not isinstance(o, bool) and o == 0:
                 return not self.terms
             return NotImplemented
         return self.terms == o.terms
@@ -288,7 +296,7 @@ class LinComb(object):
     def __repr__(self):
         if not self.terms:
             return "<0>"
-        return "<" + " + ".join("(%r)*%r" % (c, a) for a, c in sorted(self.terms.items(), key=lambda x: repr(x[0].key))) + ">"
+        return "<" + " + ".join("(%r)*%r" % (c, a) for a, c in sorted(self.terms.items(), key=lambda x: x[0].id)) + ">"
 
 
 def canon(v):
@@ -538,3 +546,41 @@ def float_literal(x):
             raise ValueError("non-finite literal")
         return Fraction(repr(x))
     return x
+
+
+# ----------------------------------------------------------------------------------------------
+# concrete-length vectors and coefficient tables (stage arrays, Butcher tables)
+# ----------------------------------------------------------------------------------------------
+class ConcVec(object):
+    """Immutable vector of known length; items are scalars (Fraction/Poly/bool) or LinComb/BlockVec."""
+    __slots__ = ("items",)
+
+    def __init__(self, items):
+        self.items = tuple(items)
+
+    def __len__(self):
+        return len(self.items)
+
+    def __hash__(self):
+        return hash(self.items)
+
+    def __eq__(self, o):
+        return isinstance(o, ConcVec) and self.items == o.items
+
+    def __repr__(self):
+        return "Vec[" + ", ".join(repr(x) for x in self.items) + "]"
+
+
+class TabVal(object):
+    """Concrete 2-D coefficient table (rows of Fractions)."""
+    __slots__ = ("rows",)
+
+    def __init__(self, rows):
+        self.rows = tuple(tuple(r) for r in rows)
+
+    @property
+    def shape(self):
+        return (len(self.rows), len(self.rows[0]) if self.rows else 0)
+
+    def __repr__(self):
+        return "Tab%dx%d" % self.shape
